@@ -76,8 +76,20 @@ impl WalIndex {
             )
         })?;
 
+        #[cfg(walrus_verif)]
+        crate::wal::verif::io(crate::wal::verif::Io::WriteFile {
+            path: &tmp_path,
+            data: &bytes,
+        });
         fs::write(&tmp_path, &bytes)?;
+        #[cfg(walrus_verif)]
+        crate::wal::verif::io(crate::wal::verif::Io::FsyncFile { path: &tmp_path });
         fs::File::open(&tmp_path)?.sync_all()?;
+        #[cfg(walrus_verif)]
+        crate::wal::verif::io(crate::wal::verif::Io::Rename {
+            from: &tmp_path,
+            to: &self.path,
+        });
         fs::rename(&tmp_path, &self.path)?;
         Ok(())
     }
